@@ -291,11 +291,15 @@ func (s *Store) Close() error {
 
 	cerr := s.Err()
 
-	err := s.index.Close()
+	// Close the primary before the index. This stops primary GC, so that it
+	// cannot relocate records after the index has been saved, and writes the
+	// primary data before the index records that refer to it, the same order
+	// that is used when flushing.
+	err := s.index.Primary.Close()
 	if err != nil {
 		cerr = err
 	}
-	if err = s.index.Primary.Close(); err != nil {
+	if err = s.index.Close(); err != nil {
 		cerr = err
 	}
 	s.fileCache.Clear()
